@@ -75,8 +75,9 @@ def main():
         shadow = wt + '.vf'
         shutil.rmtree(shadow, ignore_errors=True)
         os.makedirs(os.path.join(shadow, 'evidence'))
-        for f in ('testdata', 'known_findings.json', 'bin', 'MANIFEST.json', 'properties.jsonl'):
-            os.symlink(os.path.join('/verif', f), os.path.join(shadow, f))
+        shutil.copytree('/verif/testdata', shadow + '/testdata')
+        shutil.copy('/verif/known_findings.json', shadow + '/known_findings.json')
+        os.makedirs(shadow + '/bin'); shutil.copy('/verif/bin/goyacc', shadow + '/bin/goyacc')
         sh('git status --porcelain', cwd=wt)
         detected, silent = {}, []
         from concurrent.futures import ThreadPoolExecutor
